@@ -36,8 +36,7 @@
 // specification): classes pos-named-differ, inithash-roundtrip, get-wrong, get-constant, equality-wrong,
 // equality-include-type, subtype-not-instance, ancestor-instance-of-sub, schema-admitted-rejected, new-rejected,
 // type-hash-key (the distinct types of an op are distinct keys of a Hash),
-// renderings-differ, reinit-differs (the types re-created from their own InitHash() behave differently; the known finding
-// C17-type-inithash-constant-undef has its own class reinit-constant-undef, ranked last), fault.
+// renderings-differ, reinit-differs (the types re-created from their own InitHash() behave differently), fault.
 //
 // Implementation-only twin `@objd …` (same syntax): every definition additionally declares a member function, re-declares
 // its parent's (override => true) on odd levels, and carries a type-level annotation; same predicates, no model.
@@ -399,16 +398,6 @@ type action struct {
 	vals  []val
 	names []string
 	name  string
-}
-
-// hasUndefConstant: the definition declares a constant of an Optional type with the value undef
-func (d *def) hasUndefConstant() bool {
-	for _, a := range d.attrs {
-		if a.kind == "c" && a.ty.k == "opt" && a.dflt != nil && a.dflt.k == "u" {
-			return true
-		}
-	}
-	return false
 }
 
 func repeats(ns []string) bool {
@@ -1593,10 +1582,11 @@ func (s *spec) givenAt(act *action, i int) (val, bool) {
 }
 
 // ext: the bindings of the type parameters of the instance's type, as the code makes them (typedObject.valuesFromHash):
-// a parameter is bound when the hash the values come from has a key of its name with a value of Optional[T] — for a named
+// a parameter is bound when the hash the values come from has a key of its name with a value of Optional[T] other than undef
+// (an undef binds nothing: fix de95e71, finding C17-tparam-explicit-undef) — for a named
 // construction the hash given; for a positional one the hash made by makeValueHash, which leaves out every value equal to its
 // attribute's default.  explicitDefault: a NAMED construction binds a parameter to a value that equals the default of the
-// attribute (known finding C17-tparam-explicit-undef: the positional twin does not, and the init-hash drops it).
+// attribute (known finding C17-tparam-explicit-default: the positional twin does not, and the init-hash drops it).
 func (s *spec) ext(act *action) (ext string, explicitDefault bool) {
 	tps := s.tparams[act.t]
 	if len(tps) == 0 || s.stored(act) == 0 {
@@ -1608,7 +1598,7 @@ func (s *spec) ext(act *action) (ext string, explicitDefault bool) {
 				continue
 			}
 			v, given := s.givenAt(act, i)
-			if !given || !(&ty{k: "opt", elt: q.ty}).inst(v) {
+			if !given || v.k == "u" || !(&ty{k: "opt", elt: q.ty}).inst(v) {
 				continue
 			}
 			isDflt := p.hasDflt && p.dv.String() == v.String()
@@ -1624,12 +1614,12 @@ func (s *spec) ext(act *action) (ext string, explicitDefault bool) {
 	return ext, explicitDefault
 }
 
-// givesParamDefault: the construction gives some type parameter's attribute a value equal to the attribute's default (by
-// position or by name): the named twin / the positional twin / the object rebuilt from the init-hash then has another type
+// givesParamDefault: the construction gives some type parameter's attribute a value other than undef equal to the attribute's
+// default (by position or by name): the named twin / the positional twin / the object rebuilt from the init-hash then has another type
 func (s *spec) givesParamDefault(act *action) bool {
 	for _, q := range s.tparams[act.t] {
 		for i, p := range s.pos[act.t] {
-			if v, given := s.givenAt(act, i); p.name == q.name && given && p.hasDflt && p.dv.String() == v.String() && (&ty{k: "opt", elt: q.ty}).inst(v) {
+			if v, given := s.givenAt(act, i); p.name == q.name && given && v.k != "u" && p.hasDflt && p.dv.String() == v.String() && (&ty{k: "opt", elt: q.ty}).inst(v) {
 				return true
 			}
 		}
@@ -1769,7 +1759,7 @@ func (r *run) predicate(c px.Context, s *spec, acts []action, hashes []*types.Ha
 			}
 		}
 		// a failure of the two laws below on a construction that gives a type parameter's attribute its default is the known
-		// finding C17-tparam-explicit-undef (the named constructor binds the parameter to it, the positional one and the
+		// finding C17-tparam-explicit-default (the named constructor binds the parameter to it, the positional one and the
 		// init-hash do not): reported under its own class
 		addLaw := add
 		if s.givesParamDefault(act) {
@@ -1777,7 +1767,7 @@ func (r *run) predicate(c px.Context, s *spec, acts []action, hashes []*types.Ha
 				if class == "fault" {
 					add(class, format, a...)
 				} else {
-					add("tparam-explicit-undef", "["+class+"] "+format, a...)
+					add("tparam-explicit-default", "["+class+"] "+format, a...)
 				}
 			}
 		}
@@ -2122,13 +2112,9 @@ func exec(c px.Context, op string, args []sx.Sexp) core.Result {
 			out += " ; reinit differs"
 		}
 		if !strings.HasSuffix(out, " ; reinit same") {
-			class := "reinit-differs"
-			if k := len(ri.defRes) - 1; !ri.defOK && ri.defRes[k] == "reported CONSTANT_REQUIRES_VALUE" && defs[k].hasUndefConstant() {
-				// known finding C17-type-inithash-constant-undef: the InitHash of a constant of an Optional type whose
-				// value is undef leaves the value out
-				class = "reinit-constant-undef"
-			}
-			fails = append(fails, failure{class, "as text: " + out + " | re-created from InitHash(): " + h})
+			// (the finding C17-type-inithash-constant-undef — the InitHash of a constant of an Optional type whose value is
+			// undef left the value out — is fixed by 86875be: no class of its own any more)
+			fails = append(fails, failure{"reinit-differs", "as text: " + out + " | re-created from InitHash(): " + h})
 		}
 	}
 	if len(msgProblems) > 0 {
@@ -2153,7 +2139,7 @@ func exec(c px.Context, op string, args []sx.Sexp) core.Result {
 // one class is reported per op: the most specific first
 func classRank(c string) int {
 	for i, k := range []string{"fault", "schema-admitted-rejected", "renderings-differ", "reinit-differs", "new-rejected", "get-wrong", "get-constant", "pos-named-differ",
-		"inithash-roundtrip", "equality-wrong", "equality-include-type", "subtype-not-instance", "ancestor-instance-of-sub", "unrelated-instance", "iface-structural", "type-hash-key", "message-args", "reinit-constant-undef", "tparam-explicit-undef", "iface-override-covariant"} {
+		"inithash-roundtrip", "equality-wrong", "equality-include-type", "subtype-not-instance", "ancestor-instance-of-sub", "unrelated-instance", "iface-structural", "type-hash-key", "message-args", "tparam-explicit-default", "iface-override-covariant"} {
 		if c == k {
 			return i
 		}
